@@ -2419,6 +2419,10 @@ def positional_form(F, chain, I=("i",)):
             return None
         v = substitute_closure(Terms(cb).return_term(), a[1][2], (inner[0],))
         return proj_simplify(clean(v)), inner[1]
+    # a workspace function that hands out an iterator (StateModel::indexed_iter, ..): an opaque sequence
+    if re.sub(r"\{.*\}$", "", t[1]) in F.bodies and not re.search(r"Iterator|Itertools", name):
+        x = clean(t)
+        return ("at", x, I), {("len", x)}
     return None
 
 
